@@ -11,7 +11,8 @@ says; its final observation is judged by the same predicate (`spec_model`).
 
 `agree`: the real scheduler is not controlled, so outcomes are compared
 * exactly (per caller: returned, number of identified results, of skipped
-  results, of started jobs; goroutines left) in the modes whose outcome is
+  results, of started jobs, the jobs that panicked and their error results; goroutines left; and
+  the concurrency bound every model run satisfies, `workers_le_max`) in the modes whose outcome is
   schedule-independent (none, stop-before, cancel-before, stop-after, cancel-after);
 * as membership in the model's envelope otherwise (stop / cancel / both after k
   yields): the observation must satisfy every relation the theorems prove of ALL
@@ -110,10 +111,12 @@ def callerObs (jobs : Nat) (j : Json) : R CallerObs := do
   let ar ← intF j "deliveredAtReturn"
   pure { jobs := jobs, returned := ← boolF j "returned", delivered := ← listF asNat j "delivered",
          anon := ← natF j "anon", started := ← listF asNat j "started",
-         atReturn := if ar < 0 then none else some ar.toNat, late := ← natF j "late" }
+         atReturn := if ar < 0 then none else some ar.toNat, late := ← natF j "late",
+         panicked := ← listOf asNat (fieldD j "panicked" .null),
+         errDelivered := ← listOf asNat (fieldD j "errDelivered" .null) }
 
 def summary (o : Obs) : String :=
-  let cs := o.callers.map fun c => s!"(ret={c.returned} del={c.delivered.length} anon={c.anon} started={c.started.length})"
+  let cs := o.callers.map fun c => s!"(ret={c.returned} del={c.delivered.length} anon={c.anon} started={c.started.length} panicked={c.panicked.length})"
   s!"{cs} leaked={o.leaked} maxConc={o.maxConc}"
 
 def handle (input impl : Json) : R Reply := do
@@ -131,17 +134,22 @@ def handle (input impl : Json) : R Reply := do
   if callersJ.length ≠ jobs.length && !crashed then throw "impl.callers does not match input.jobs"
   let callers ← if callersJ.length ≠ jobs.length then pure [] else (callersJ.zip jobs).mapM fun (j, n) => callerObs n j
   let got : Obs := { callers := callers, maxConc := ← natF impl "maxConc", leaked := ← natF impl "leaked", crashed := crashed }
+  -- job indices (per caller) whose job function panics; the other job kinds (yield, hold: released by
+  -- the harness whenever everything is blocked) only shape the real schedule
+  let panicAt ← listOf (listOf asNat) (fieldD input "panicAt" .null)
   let cfg : Cfg := { fixed := true, maxWorkers := workers, ncallers := jobs.length,
-                     jobs := fun g => jobs.getD g 0, blocking := fun _ => kind == "block" }
+                     jobs := fun g => jobs.getD g 0, blocking := fun _ => kind == "block",
+                     panics := fun j => (panicAt.getD j.grp []).contains j.idx }
   let total := jobs.foldl (· + ·) 0
   -- the model is run on every case of moderate size (a run costs ~30 scheduler steps per job)
   let runModel := decide (total ≤ 400)
   let want := if runModel then modelRun cfg mode k salt else got
   let deterministic := quiet || mode == "stop-before" || mode == "cancel-before"
-  let proj (o : Obs) := (o.callers.map fun c => (c.returned, c.delivered.length, c.anon, c.started.length), o.leaked)
+  let proj (o : Obs) := (o.callers.map fun c => (c.returned, c.delivered.length, c.anon, c.started.length,
+    c.panicked.mergeSort, c.errDelivered.mergeSort), o.leaked)
   let si := spec cs got
   let sm := !runModel || spec cs want
-  let agree := if deterministic && runModel then decide (proj got = proj want) else si
+  let agree := if deterministic && runModel then proj got == proj want && decide (got.maxConc ≤ workers) else si
   let stuck := got.callers.any (fun c => !c.returned)
   let tags :=
     [s!"mode:{mode}", s!"kind:{kind}"] ++
@@ -149,6 +157,8 @@ def handle (input impl : Json) : R Reply := do
     (if deterministic then ["exact-compare"] else ["envelope-compare"]) ++
     (if stuck then ["stuck"] else []) ++
     (if got.callers.any (fun c => decide (c.anon > 0)) then ["skipped-results"] else []) ++
+    (if got.callers.any (fun c => !c.panicked.isEmpty) then ["job-panicked"] else []) ++
+    (if got.callers.any (fun c => !c.panicked.isEmpty) && decide (got.maxConc = workers) then ["panic-then-saturated"] else []) ++
     (if got.callers.any (fun c => decide (0 < c.total) && decide (c.total < c.jobs)) then ["partial-acceptance"] else []) ++
     (if got.callers.all (fun c => decide (c.total = c.jobs)) then ["all-accepted"] else []) ++
     (if got.callers.any (fun c => decide (c.total = 0) && decide (0 < c.jobs)) then ["none-accepted"] else []) ++
